@@ -1,0 +1,10 @@
+//go:build verif
+
+// Contracts for node descriptors (comment-only).
+package node
+
+//@ func Node.IsExpired
+//@   props C14
+//@   requires n != nil
+//@   modifies nothing
+//@   ensures result == (n.Expiration < epoch)
